@@ -13,7 +13,8 @@ theorems below are permutation-invariance statements, one per item of the proper
  6. the packages phase only ADDS to the re-export map            (`reexport_map_add_commutes`, `RmEquiv` consumers)
  7. file discovery and AST selection                             (`discovery_enumeration_order`)
  8. the former scope exclusions, now theorems: `_find_alias` iterates `sorted(qnames)`
-    (`findAlias_perm`), the inferred return types come in SOURCE order (`InferTie` is no exclusion any
+    (`findAlias_perm`, for every known qualified name; `findAlias_known`: a known candidate wins),
+    the inferred return types come in SOURCE order (`InferTie` is no exclusion any
     more), the re-exported elements are sorted by `(name, id)` (`reexport_elements_order`)
  9. non-vacuity examples.
 
@@ -337,20 +338,36 @@ theorem findAlias_loop_perm {β : Type} (step : β → String → β) (init : β
   p08_sorted_foldl_perm step init h
 
 /-- `_find_alias` gives the same answer for every iteration order of `aliases[typeName]` — with NO
-    side condition.  (A single candidate is returned directly; a permutation of a singleton is the
-    same singleton and permutations keep the length, so both sides take the same branch.) -/
+    side condition, and for EVERY known qualified name `k` the caller passes (`known_qname`; the
+    default `""` gives the three-argument statement).  (A single candidate is returned directly; a
+    permutation of a singleton is the same singleton and permutations keep the length, so both sides
+    take the same branch; `known_qname in qnames` is a membership test, the same for every iteration
+    order.) -/
 theorem findAlias_perm (env env' : AEnv) (s : VSt) (typeName : String) {qs qs' : List String}
     (h1 : assocGet? env.aliases typeName = some qs) (h2 : assocGet? env'.aliases typeName = some qs')
-    (h : qs ~ qs') :
-    findAlias env s typeName = findAlias env' s typeName :=
-  p08_findAlias_perm env env' s typeName h1 h2 h
+    (h : qs ~ qs') (k : String := "") :
+    findAlias env s typeName k = findAlias env' s typeName k :=
+  p08_findAlias_perm env env' s typeName h1 h2 h k
 
 /-- … and for two environments whose alias tables differ by the iteration order of every candidate
     set, for every looked-up name (`findAlias` reads nothing else of the environment). -/
 theorem findAlias_perm_all (env env' : AEnv) (s : VSt) (typeName : String)
-    (h : AliasesPerm env.aliases env'.aliases) :
-    findAlias env s typeName = findAlias env' s typeName :=
-  p08_findAlias_perm_all env env' s typeName h
+    (h : AliasesPerm env.aliases env'.aliases) (k : String := "") :
+    findAlias env s typeName k = findAlias env' s typeName k :=
+  p08_findAlias_perm_all env env' s typeName h k
+
+/-- The known qualified name wins.  If the name has no hit in the qualified imports of the current
+    module, `aliases[typeName]` is not a single candidate, and the qualified name `k` the caller
+    already knows (`enterClassdef`: the superclass's full name as resolved by mypy) is one of the
+    candidates, then `_find_alias` returns `k` (with its last dotted component as the name) — the
+    sorted loop and its substring heuristic are not consulted. -/
+theorem findAlias_known (env : AEnv) (s : VSt) (typeName k : String) {qs : List String} {m : Module}
+    (hm : bottomModule s = some m)
+    (himp : ((searchAliasInImports m.qualifiedImports typeName).1 != "" &&
+      (searchAliasInImports m.qualifiedImports typeName).2 != "") = false)
+    (h1 : assocGet? env.aliases typeName = some qs) (hlen : qs.length ≠ 1) (hk : k ∈ qs) :
+    findAlias env s typeName k = .ok (lastD "" (splitDot k), k) :=
+  p08_findAlias_known env s typeName k hm himp h1 hlen hk
 
 /-- (i) FORMERLY EXCLUDED, now decided by the sorted order: the name is defined in several modules
     (`aliases[name]` has ≥ 2 qualified names) and more than one of them has a module path that
@@ -392,9 +409,10 @@ theorem noTies_trivial (env : AEnv) (s : VSt) (typeNames : List String) (inferre
 /-- the old statement, kept: its two tie hypotheses are not needed any more (see `findAlias_perm`) -/
 theorem findAlias_noTies (env env' : AEnv) (s : VSt) (typeName : String) {qs qs' : List String}
     (h1 : assocGet? env.aliases typeName = some qs) (h2 : assocGet? env'.aliases typeName = some qs')
-    (h : qs ~ qs') (_hTie : ¬ FindAliasTie env s typeName) (_hNoHit : ¬ FindAliasNoHit env s typeName) :
-    findAlias env s typeName = findAlias env' s typeName :=
-  findAlias_perm env env' s typeName h1 h2 h
+    (h : qs ~ qs') (_hTie : ¬ FindAliasTie env s typeName) (_hNoHit : ¬ FindAliasNoHit env s typeName)
+    (k : String := "") :
+    findAlias env s typeName k = findAlias env' s typeName k :=
+  findAlias_perm env env' s typeName h1 h2 h k
 
 /-- The sort step alone, as a statement about an arbitrary enumeration of a SET of types (pairwise
     different) without two members of equal sort key: every enumeration gives the same list.  (In the
@@ -460,10 +478,41 @@ example : FindAliasNoHit (exEnv ["x.a.T", "y.b.U"]) exVSt "T" ∧ FindAliasNoHit
    ⟨_, rfl, by decide +kernel, by decide +kernel, "x.a.T", by decide +kernel, "y.b.U", by decide +kernel, by decide +kernel⟩⟩
 
 example : findAlias (exEnv ["x.a.T", "y.b.U"]) exVSt "T" = findAlias (exEnv ["y.b.U", "x.a.T"]) exVSt "T" :=
-  findAlias_perm_all _ _ exVSt "T" (List.Forall₂.cons ⟨rfl, List.Perm.swap _ _ _⟩ List.Forall₂.nil)
+  findAlias_perm_all (exEnv ["x.a.T", "y.b.U"]) (exEnv ["y.b.U", "x.a.T"]) exVSt "T"
+    (List.Forall₂.cons ⟨rfl, List.Perm.swap _ _ _⟩ List.Forall₂.nil)
 
 /-- the special case of a single candidate: returned as it is, whether or not it matches -/
 example : findAlias (exEnv ["x.a.T"]) exVSt "T" = .ok ("T", "x.a.T") := by decide +kernel
+
+def exVStM : VSt :=
+  { doc := { root := { name := "pkg" }, style := .numpy },
+    stack := [.module { id := "pkg/m", name := "m" }], fileFullname := "pkg.m", fileName := "m" }
+
+def exEnvTable (qs : List String) : AEnv := { opts := {}, aliases := [("Table", qs)], infoBases := [] }
+
+/-- the known qualified name wins: both candidates contain the module name `pkg.m`; with the known
+    name `pkg.m.Table` (what mypy resolved) the answer is that one, in both iteration orders, whereas
+    with the default `""` the sorted loop stops at `pkg.m.A.Table` (`'A' < 'T'`) -/
+example :
+    findAlias (exEnvTable ["pkg.m.A.Table", "pkg.m.Table"]) exVStM "Table" "pkg.m.Table" = .ok ("Table", "pkg.m.Table") ∧
+    findAlias (exEnvTable ["pkg.m.Table", "pkg.m.A.Table"]) exVStM "Table" "pkg.m.Table" = .ok ("Table", "pkg.m.Table") ∧
+    findAlias (exEnvTable ["pkg.m.A.Table", "pkg.m.Table"]) exVStM "Table" = .ok ("Table", "pkg.m.A.Table") ∧
+    findAlias (exEnvTable ["pkg.m.Table", "pkg.m.A.Table"]) exVStM "Table" = .ok ("Table", "pkg.m.A.Table") := by
+  decide +kernel
+
+/-- … the same by the theorem (its hypotheses hold here) -/
+example : findAlias (exEnvTable ["pkg.m.A.Table", "pkg.m.Table"]) exVStM "Table" "pkg.m.Table" = .ok ("Table", "pkg.m.Table") :=
+  findAlias_known _ exVStM "Table" "pkg.m.Table" (m := { id := "pkg/m", name := "m" }) rfl (by decide +kernel) rfl
+    (by decide) (by decide +kernel)
+
+/-- … and the permutation theorem with a known name -/
+example : findAlias (exEnvTable ["pkg.m.A.Table", "pkg.m.Table"]) exVStM "Table" "pkg.m.Table" =
+    findAlias (exEnvTable ["pkg.m.Table", "pkg.m.A.Table"]) exVStM "Table" "pkg.m.Table" :=
+  findAlias_perm _ _ exVStM "Table" rfl rfl (List.Perm.swap _ _ _) "pkg.m.Table"
+
+/-- a known name that is NOT among the candidates changes nothing -/
+example : findAlias (exEnvTable ["pkg.m.A.Table", "pkg.m.Table"]) exVStM "Table" "other.Table" = .ok ("Table", "pkg.m.A.Table") := by
+  decide +kernel
 
 def exTupInt : Expr := .tuple [.int 1, .int 2]
 def exTupStr : Expr := .tuple [.str "a", .str "b"]
